@@ -164,7 +164,7 @@ def check_case(case, rec):
     if builtin:
         case = dict(case, csv=csv_path())
     text = source_text(case)
-    vlog.reset()
+    vlog.reset(cap=40 * (n + 10) + 2000)
     build = case.get("build", "source") if not builtin else "source"
     try:
         if build == "source":
@@ -228,6 +228,36 @@ def check_case(case, rec):
         if second != "recursive_model_error" or third != "recursive_model_error":
             fails.append(Failure("cyclic_model_rerun:%s/%s|%s" % (second, third, cls),
                                  "after the first rejection: second attempt %s, third run() %s for\n%s" % (second, third, text)))
+    if cyclic and build == "source" and (case.get("pick", 0) + n) % 6 == 0:
+        # the command-line tool: the same rejection, reported on stderr with a non-zero exit status
+        import shutil
+        import tempfile
+
+        from click.testing import CliRunner
+        from mpilot.cli.mpilot import main
+
+        tmp = tempfile.mkdtemp(prefix="vcheck-c14-cli-")
+        try:
+            for final_newline in (False, True):
+                path = os.path.join(tmp, "model.mpt")
+                with open(path, "w") as f:
+                    f.write(text + ("\n" if final_newline else ""))
+                res = CliRunner().invoke(main, ["eems-csv", path] + ([] if builtin else ["-l", "vlib_verif"]))
+                rec.label("cli_run")
+                try:
+                    stderr = res.stderr
+                except Exception:
+                    stderr = res.output
+                if res.exception is not None and not isinstance(res.exception, SystemExit):
+                    fails.append(Failure("cyclic_model_cli:traceback:%s|%s" % (type(res.exception).__name__, cls), "%r\n%s" % (res.exception, text)))
+                elif res.exit_code == 0:
+                    fails.append(Failure("cyclic_model_cli:exit_zero|%s" % cls, "exit status 0 (stderr %r) for\n%s" % (stderr[-200:], text)))
+                elif "recursive" not in stderr.lower():
+                    fails.append(Failure("cyclic_model_cli:message|%s" % cls, "stderr %r for\n%s" % (stderr[-300:], text)))
+                if fails:
+                    break
+        finally:
+            shutil.rmtree(tmp, ignore_errors=True)
     if cyclic:
         if outcome != "recursive_model_error":
             executed = sorted(set(nm for ev, nm in vlog.LOG if ev == "enter"))
